@@ -22,7 +22,8 @@ def cfgs(ctx):
         tops4 = [F.L(("a", "b"), ("b", "c"), ("c", "d")), F.L(("a", "b"), ("a", "c"), ("a", "d")),
                  F.L(("a", "b"), ("b", "c"), ("c", "d"), ("a", "d")), F.L(("a", "b"), ("b", "c"), ("a", "c"), ("c", "d")),
                  F.L(("a", "b"), ("b", "c"), ("c", "d"), ("a", "d"), ("a", "c")), F.L(*k4)]
-        out.append(F.base("c12-stable4", F.A4, F.L(*k4), initups=tops4, exits=[["a"], ["a", "d"]], announcers=["a", "d"]))
+        out.append(F.base("c12-stable4", F.A4, F.L(*k4), initups=tops4, exits=[["a"], ["a", "d"]], announcers=["a", "d"], replay=False))
+        out.append(F.base("c12-stable4r", F.A4, F.L(*k4), initups=tops4, exits=[["a"]], announcers=["a"]))
     return out
 
 
